@@ -114,8 +114,14 @@ def run_for(pid=None, only=None, kind=None, jobs=8):
             work.append((v, pids))
     results = []
     with concurrent.futures.ThreadPoolExecutor(max_workers=jobs) as ex:
-        for r in ex.map(lambda w: run_variant(*w), work):
+        futs = [ex.submit(run_variant, *w) for w in work]
+        for f in concurrent.futures.as_completed(futs):
+            r = f.result()
             results.append(r)
+            if os.environ.get("VERIF_SELFTEST_STREAM") == "1":     # progress of a long run, as it happens
+                for l in summarise([r]):
+                    print("(progress) " + l, flush=True)
+    results.sort(key=lambda r: (r["kind"], r["variant"]))
     return results
 
 
